@@ -1349,6 +1349,11 @@ ares_status_t ares_send_query(ares_server_t *requested_server,
       return status;
   }
 
+  /* The query has been handed to the connection (and, for UDP, is on the
+   * wire), it counts against the connection's query limit whether or not the
+   * bookkeeping below succeeds. */
+  conn->total_queries++;
+
   timeplus = ares_calc_query_timeout(query, server, now);
   /* Keep track of queries bucketed by timeout, so we can process
    * timeout events quickly.
@@ -1380,7 +1385,6 @@ ares_status_t ares_send_query(ares_server_t *requested_server,
   }
 
   query->conn = conn;
-  conn->total_queries++;
 
   /* We just successfully enqueud a query, see if we should probe downed
    * servers. */
